@@ -11,11 +11,10 @@ package network
 //
 // Seam. A real server-side connection (NewServerConnection) is built around a
 // scripted net.Conn (c02cwConn) inside every execution of the controlled
-// scheduler (vrt; pkg/network is instrumented by rewrite set c02net: every
-// atomic / channel / select / timer operation of connection.go is a scheduling
-// point). 2-3 writer threads (one per worker / upstream reader in the running
-// proxy) call conn.Write(header, body) once or twice each; every byte written
-// names its call, buffer and offset. An optional closer thread calls
+// scheduler (vrt; pkg/network is instrumented by rewrite set c02net). 2-3
+// writer threads (one per worker / upstream reader in the running proxy) call
+// conn.Write(header, body) once or twice each; every byte written names its
+// call, buffer and offset. An optional closer thread calls
 // Close(FlushWrite, LocalClose) (what the proxy does at the end of a
 // connection) or Close(NoFlush, RemoteClose) (what the read loop does on EOF;
 // the read loop itself is not started). The scripted conn's Write - called by
@@ -27,34 +26,48 @@ package network
 // (*net.OpError wrapping os.ErrDeadlineExceeded), with an error that sticks
 // (EPIPE: every later raw write fails too, as on a dead socket), or with an
 // error that does not stick (ENOBUFS). A short count WITHOUT error is not in
-// the alphabet: io.Writer forbids it and no net.Conn does it.
+// the alphabet: io.Writer forbids it and no net.Conn does it. The scripted
+// conn's Close is a scheduling point too.
+//
+// Scheduling points. connection.go is in the rewrite set with its channel
+// operations left native ("nochan": the rewriter duplicates the label OUTER of
+// startWriteLoop when it clones the enclosing select, the result does not
+// compile): its atomics (closed, connected, idCounter) and timers are
+// scheduling points, its selects / sends / close(chan) run natively and are
+// atomic steps. All of them are non-blocking in the explored executions
+// except the ones named below, which the harness guards.
 //
 // Write modes: "direct" (the production mode: writeDirectly under the
 // try-lock), "netpoll" (UseNetpollMode=true: the mode switch at the top of
 // Write; same writeDirectly), "loop" (useWriteLoop=true with the real
-// startWriteLoop goroutine on a managed thread, exactly what startRWLoop does
-// when checkUseWriteLoop says yes - which it never does in the unchanged tree,
-// so this mode is test-only code; writeBufferChan at its real capacity 8 and
-// shrunk to 1 so that the blocking send / DefaultConnTryTimeout branch is
-// reached with three calls).
+// startWriteLoop goroutine on a managed thread, what startRWLoop does when
+// checkUseWriteLoop says yes - which it never does in the unchanged tree, so
+// this mode is test-only code). In loop mode a Write is one native
+// non-blocking channel send (the harness yields before it); the write loop
+// thread must never block natively in its main select, so it is parked at a
+// scheduling point - before startWriteLoop is entered and in a bytes-sent
+// callback at the end of every successful doWrite - until writeBufferChan is
+// non-empty or the connection is closed (or the flush marker was consumed / a
+// fault fired: the loop is about to leave). That is where the real loop would
+// sit in its select. writeBufferChan (capacity 8) never fills: the blocking
+// send with its DefaultConnTryTimeout timer is not explored.
 //
 // The try-lock. connection.tryMutex is a mosn.io/pkg/utils.Mutex (a channel of
-// capacity 1 in ANOTHER module): it cannot be instrumented, a thread that
-// blocked in it natively would stop the cooperative scheduler. Therefore
-// (1) types.DefaultConnTryTimeout is 1ns while the part runs: a TryLock on a
-// held lock fails at once, the Write returns ErrWriteTryLockTimeout (the
-// real "try-lock timed out" outcome, reached here without waiting 60 s);
-// (2) the blocking acquisition is modelled by the harness: a writer (and the
+// capacity 1 in ANOTHER module): it cannot be instrumented, and a thread that
+// blocked in it natively would stop the cooperative scheduler. The blocking
+// acquisition is therefore modelled by the harness: a writer (and the
 // FlushWrite closer) waits at a scheduling point until the lock's channel is
 // empty (read through its memory layout, checked at start) and then calls
-// Write. Between that point and the TryLock inside writeDirectly lies one
-// scheduling point (the select on internalStopChan); when another thread takes
-// the lock there, outcome (1) happens. What this cannot produce: a thread that
-// passed the stop check, then waited for the lock while the holder closed the
-// connection (it would write to the closed raw conn: no bytes reach the peer).
-// If the lock is released early or not taken (the defects this unit is for),
-// the channel is empty, the waiting writer goes ahead and the interleaving
-// shows on the wire.
+// Write; no scheduling point lies between that wait and the TryLock inside
+// writeDirectly, so the TryLock succeeds. If the lock is released early or not
+// taken at all (the defects this unit is for), the channel is empty, the
+// waiting writer goes ahead and the interleaving shows on the wire. Cases
+// "nowait" skip the wait, with types.DefaultConnTryTimeout = 1ns: a TryLock on
+// a held lock fails at once and the Write returns ErrWriteTryLockTimeout (the
+// real "try-lock timed out" outcome without waiting 60 s). Not producible: a
+// thread that passed the stop check of writeDirectly, then waited for the
+// lock while the holder closed the connection (it would write to the closed
+// raw conn: no byte reaches the peer).
 //
 // Oracle (demands only what the statement needs): the byte sequence accepted
 // by the scripted conn before its Close is
@@ -98,26 +111,27 @@ import (
 const (
 	c02cwProp = "C02"
 	c02cwPart = "conn-write"
-	c02cwHdr  = 2 // bytes per header buffer
-	c02cwBody = 3 // bytes per body buffer
+	c02cwHdrLen  = 2 // bytes per header buffer
+	c02cwBodyLen = 3 // bytes per body buffer
 )
 
 type c02cwCase struct {
 	Mode      string `json:"mode"`               // direct | netpoll | loop
-	ChanCap   int    `json:"chan_cap,omitempty"` // loop: capacity of writeBufferChan (8 = as built)
+	NoWait    bool   `json:"no_wait,omitempty"` // direct modes: writers do not wait for the try-lock (a contended TryLock times out at once)
 	Writers   []int  `json:"writers"`            // calls per writer thread
 	Closer    string `json:"closer,omitempty"`   // "" | flush | noflush
 	FaultAt   int    `json:"fault_at"`           // index of the faulted non-empty raw write of the execution, -1 = none
 	FaultKind string `json:"fault_kind,omitempty"`
 	FaultN    int    `json:"fault_n,omitempty"` // bytes accepted by the faulted raw write
 	Bound     int    `json:"bound"`
+	Delay     bool   `json:"delay,omitempty"` // delay bounding (every non-default scheduling choice costs) instead of preemption bounding
 	Choices   []int  `json:"choices,omitempty"`
 }
 
 func (c *c02cwCase) name() string {
 	s := fmt.Sprintf("mode=%s writers=%v", c.Mode, c.Writers)
-	if c.Mode == "loop" {
-		s += fmt.Sprintf(" chan=%d", c.ChanCap)
+	if c.NoWait {
+		s += " nowait"
 	}
 	if c.Closer != "" {
 		s += " closer=" + c.Closer
@@ -180,6 +194,7 @@ type c02cwObs struct {
 	faultSeq     int
 	rawClosedSeq int
 	flushSeq     int
+	flushRet     int
 	noflushSeq   int
 	afterClose   int // raw writes attempted on the closed raw conn
 	inRaw        int
@@ -196,10 +211,10 @@ func c02cwMarker(call, buf, off int) byte { return byte((call+1)<<4 | buf<<3 | o
 
 func c02cwFrame(call int) []byte {
 	var f []byte
-	for i := 0; i < c02cwHdr; i++ {
+	for i := 0; i < c02cwHdrLen; i++ {
 		f = append(f, c02cwMarker(call, 0, i))
 	}
-	for i := 0; i < c02cwBody; i++ {
+	for i := 0; i < c02cwBodyLen; i++ {
 		f = append(f, c02cwMarker(call, 1, i))
 	}
 	return f
@@ -288,6 +303,7 @@ func (rc *c02cwConn) Write(b []byte) (int, error) {
 }
 
 func (rc *c02cwConn) Close() error {
+	vrt.Yield()
 	if !rc.closed {
 		rc.closed = true
 		rc.o.rawClosedSeq = rc.o.tick()
@@ -307,7 +323,7 @@ func (l *c02cwListener) OnEvent(ev api.ConnectionEvent) { l.o.events = append(l.
 // ---------------------------------------------------------------- one execution
 
 func c02cwBody(c *c02cwCase, o *c02cwObs) {
-	*o = c02cwObs{faultSeq: -1, rawClosedSeq: -1, flushSeq: -1, noflushSeq: -1}
+	*o = c02cwObs{faultSeq: -1, rawClosedSeq: -1, flushSeq: -1, flushRet: -1, noflushSeq: -1}
 	call := 0
 	for w, k := range c.Writers {
 		for j := 0; j < k; j++ {
@@ -326,13 +342,18 @@ func c02cwBody(c *c02cwCase, o *c02cwObs) {
 	lock := c02cwLockChan(conn.tryMutex)
 	direct := c.Mode != "loop"
 	if c.Mode == "loop" {
-		// what connection.Start -> startRWLoop does when checkUseWriteLoop() says yes, minus the read loop
+		// what connection.Start -> startRWLoop does when checkUseWriteLoop() says yes, minus the read loop.
+		// The loop thread is parked where the real one would block in its main select (see the file comment).
 		conn.internalLoopStarted = true
 		conn.useWriteLoop = true
-		if c.ChanCap != cap(conn.writeBufferChan) {
-			conn.writeBufferChan = make(chan *[]buffer.IoBuffer, c.ChanCap)
+		work := func() bool {
+			return len(conn.writeBufferChan) > 0 || conn.closed == 1 || o.faultSeq >= 0 || (o.flushRet >= 0 && len(conn.writeBufferChan) == 0)
 		}
+		conn.AddBytesSentListener(func(uint64) {
+			vrt.WaitUntil("write loop: something queued or closed", work)
+		})
 		vutils.GoWithRecover(func() {
+			vrt.WaitUntil("write loop: something queued or closed", work)
 			conn.startWriteLoop()
 		}, func(r interface{}) {
 			conn.Close(api.NoFlush, api.LocalClose)
@@ -340,6 +361,11 @@ func c02cwBody(c *c02cwCase, o *c02cwObs) {
 	}
 	waitLock := func() {
 		if !direct {
+			vrt.Yield()
+			return
+		}
+		if c.NoWait {
+			vrt.Yield()
 			return
 		}
 		o.waiting++
@@ -354,8 +380,8 @@ func c02cwBody(c *c02cwCase, o *c02cwObs) {
 			for j := 0; j < k; j++ {
 				id := first + j
 				f := c02cwFrame(id)
-				h := buffer.NewIoBufferBytes(append([]byte(nil), f[:c02cwHdr]...))
-				b := buffer.NewIoBufferBytes(append([]byte(nil), f[c02cwHdr:]...))
+				h := buffer.NewIoBufferBytes(append([]byte(nil), f[:c02cwHdrLen]...))
+				b := buffer.NewIoBufferBytes(append([]byte(nil), f[c02cwHdrLen:]...))
 				waitLock()
 				o.calls[id].issued = o.tick()
 				err := conn.Write(h, b)
@@ -370,9 +396,11 @@ func c02cwBody(c *c02cwCase, o *c02cwObs) {
 			waitLock()
 			o.flushSeq = o.tick()
 			conn.Close(api.FlushWrite, api.LocalClose)
+			o.flushRet = o.tick()
 		})
 	case "noflush":
 		vrt.GoNamed("env:closer", func() {
+			vrt.Yield()
 			o.noflushSeq = o.tick()
 			conn.Close(api.NoFlush, api.RemoteClose)
 		})
@@ -435,7 +463,17 @@ func c02cwJudge(c *c02cwCase, o *c02cwObs) (shape string, bad []c02cwVerdict) {
 		default:
 			nx := w[i+m]
 			if int(nx>>4)-1 != id {
-				add("wire: the bytes of two Write calls are interleaved (a call's buffers are not contiguous)", "call %d is cut after %d of %d bytes at offset %d and followed by %s", id, m, len(f), i+m, c02cwByteName(nx))
+				later := false
+				for _, x := range w[i+m:] {
+					if int(x>>4)-1 == id {
+						later = true
+					}
+				}
+				if later {
+					add("wire: the bytes of two Write calls are interleaved (a call's buffers are not contiguous)", "call %d is cut after %d of %d bytes at offset %d and followed by %s", id, m, len(f), i+m, c02cwByteName(nx))
+				} else {
+					add("wire: a partially written call is followed by the bytes of another call (its rest never follows)", "call %d is cut after %d of %d bytes at offset %d and followed by %s", id, m, len(f), i+m, c02cwByteName(nx))
+				}
 			} else {
 				add("wire: the bytes of one Write call are damaged (lost, repeated or reordered bytes inside the call)", "call %d: %d of %d bytes match, then %s at offset %d", id, m, len(f), c02cwByteName(nx), i+m)
 			}
@@ -496,7 +534,7 @@ func c02cwErrName(err error) string {
 
 func c02cwRun(p *vreport.Part, c c02cwCase, replay bool, deadline time.Time) bool {
 	obs := &c02cwObs{}
-	opts := vrt.Options{Bound: c.Bound, MaxSteps: 20000, MaxExecs: vreport.Pick(60000, 600000), Deadline: deadline}
+	opts := vrt.Options{Bound: c.Bound, Delay: c.Delay, MaxSteps: 20000, MaxExecs: vreport.Pick(400000, 4000000), Deadline: deadline}
 	if replay {
 		opts.Replay = true
 		opts.Prefix = c.Choices
@@ -584,6 +622,9 @@ func c02cwRun(p *vreport.Part, c c02cwCase, replay bool, deadline time.Time) boo
 		}
 	})
 	p.AddTraces(st.Executions)
+	if os.Getenv("VERIF_DEBUG") != "" {
+		fmt.Fprintf(os.Stderr, "c02cw %-70s bound=%d execs=%d complete=%v\n", name, c.Bound, st.Executions, st.Complete)
+	}
 	return st.Complete
 }
 
@@ -591,40 +632,35 @@ func c02cwRun(p *vreport.Part, c c02cwCase, replay bool, deadline time.Time) boo
 
 func c02cwCases(bound int) []c02cwCase {
 	th := vreport.Thorough()
-	type modeT struct {
-		mode string
-		cap  int
-	}
-	modes := []modeT{{"direct", 0}, {"netpoll", 0}, {"loop", 8}, {"loop", 1}}
-	writers := [][]int{{1, 1}, {2, 1}, {1, 1, 1}}
+	writers := [][]int{{1, 1}, {2, 1}, {1, 1, 1}, {2, 2}}
 	if th {
-		writers = append(writers, []int{2, 2}, []int{2, 1, 1})
+		writers = append(writers, []int{2, 1, 1}, []int{3, 1})
 	}
 	var out []c02cwCase
-	for _, m := range modes {
+	for _, mode := range []string{"direct", "netpoll", "loop"} {
 		for _, ws := range writers {
 			calls := 0
 			for _, k := range ws {
 				calls += k
 			}
-			if m.mode == "loop" && m.cap == 1 && calls < 3 {
-				continue // the channel never fills
-			}
 			for _, closer := range []string{"", "flush", "noflush"} {
-				out = append(out, c02cwCase{Mode: m.mode, ChanCap: m.cap, Writers: ws, Closer: closer, FaultAt: -1, Bound: bound})
-				// one injected fault: at every raw write position, every kind, 0 or 1 byte accepted;
-				// faults are combined with one preemption less (the fault itself is the first disturbance)
-				if m.mode == "netpoll" && !th {
+				out = append(out, c02cwCase{Mode: mode, Writers: ws, Closer: closer, FaultAt: -1, Bound: bound})
+				if mode == "direct" {
+					out = append(out, c02cwCase{Mode: mode, NoWait: true, Writers: ws, Closer: closer, FaultAt: -1, Bound: bound})
+				}
+				// one injected fault: at every raw write position, every kind, 0 or 1 byte accepted
+				if mode == "netpoll" && !th {
 					continue // same writeDirectly as "direct": the fault grid runs there
 				}
-				if len(ws) == 3 && calls == 3 && !th && closer == "noflush" {
+				if calls == 4 && !th {
 					continue
 				}
 				for at := 0; at < 2*calls; at++ {
 					for _, kind := range []string{"timeout", "sticky", "transient"} {
 						for n := 0; n <= 1; n++ {
-							out = append(out, c02cwCase{Mode: m.mode, ChanCap: m.cap, Writers: ws, Closer: closer,
-								FaultAt: at, FaultKind: kind, FaultN: n, Bound: bound - 1})
+							// quick: delay bounding (every non-default scheduling choice costs), thorough: preemption bounding
+							fc := c02cwCase{Mode: mode, Writers: ws, Closer: closer, FaultAt: at, FaultKind: kind, FaultN: n, Bound: 2, Delay: !th}
+							out = append(out, fc)
 						}
 					}
 				}
@@ -677,7 +713,10 @@ func TestVerifC02ConnWrite(t *testing.T) {
 	p.Note("cases", n)
 	p.Note("cases_with_an_injected_fault", nf)
 	p.End(complete,
-		fmt.Sprintf("%d cases (this shard), %d of them with one injected write fault: write modes direct / netpoll / write loop (writeBufferChan 8 and 1) x writer threads with {1,1}, {2,1}, {1,1,1}%s Write(header, body) calls x closer thread {none, Close(FlushWrite), Close(NoFlush)} x fault {none; the k-th non-empty raw write for every k accepts 0 or 1 byte and fails with a write timeout / a sticky error / a transient error}; all schedules with <=%d preemptions (cases with a fault: <=%d)", n, nf,
-			map[bool]string{true: ", {2,2}, {2,1,1}", false: ""}[vreport.Thorough()], bound, bound-1),
+		fmt.Sprintf("%d cases (this shard), %d of them with one injected write fault: write modes direct / netpoll / write loop x writer threads with {1,1}, {2,1}, {1,1,1}, {2,2}%s Write(header, body) calls x closer thread {none, Close(FlushWrite), Close(NoFlush)} x {writers wait for the try-lock; direct mode also: contended TryLock times out} x fault {none; the k-th non-empty raw write for every k accepts 0 or 1 byte and fails with a write timeout / a sticky error / a transient error%s}; cases without fault: all schedules with <=%d preemptions; cases with a fault: %s", n, nf,
+			map[bool]string{true: ", {2,1,1}, {3,1}", false: ""}[vreport.Thorough()],
+			map[bool]string{true: "", false: "; quick tier: not in netpoll mode (same writeDirectly) and not for {2,2}"}[vreport.Thorough()],
+			bound,
+			map[bool]string{true: "all schedules with <=2 preemptions", false: "all schedules with <=2 deviations from the default scheduler (delay bounding)"}[vreport.Thorough()]),
 		"real pkg/network connection over a scripted net.Conn under the controlled scheduler (writers, closer, write loop goroutine are managed threads; every raw write is a scheduling point); every byte names its call, buffer and offset; the accepted byte sequence is parsed into calls; distinct = distinct (case, calls on the wire in order, return value classes, close events)")
 }
